@@ -211,6 +211,32 @@ CHECKS["C20"] = dict(
          "repository programs; differences that do not survive the fresh-pair re-check are incremental-only diagnostics (C13's subject).",
     technique="TLA+ spec CrateCache (TLC exhaustive, BUG variants) as history generator; histories replayed with real crate caches vs an all-source database",
     design_ref="3.9, 5/C20", engine="tlc+cvh")
+CHECKS["C10"] = dict(
+    level="model_checking",
+    text="ParserCursor models the parser's token cursor (unconsumed terminals incl. un-glued pieces, offset / current_width / last_trivia_length, "
+         "pending trivia with source positions, emitted terminals) with one action per cursor operation of parser.rs (Start/TakeDoc, Take, "
+         "SkipToken/skip_until, SkipTakenNode, Missing, Unglue, Eof) and the invariants Lossless, OffsetLaw, PendingContiguous, SpanLaw, Final; "
+         "TLC explores every terminal sequence and every interleaving of cursor actions at small scope (8 BUG variants). LexModel makes TLC "
+         "enumerate ALL strings over a 16 / 39 character-class alphabet up to length 4 / 3 (thorough 5 / 4) and token soups in syntactic contexts "
+         "(291k inputs quick, 7.7M thorough), plus seeded corpus mutants; each is lexed and parsed as a module file with the real crates and the "
+         "tree-level laws of the property are checked on the real tree (leaf text = input, widths, consecutive child spans, get_text = input[span], "
+         "root spans the file). The recorded (lexer terminals, tree leaves) pairs are validated hook-free by the ParserCursorTrace acceptor: a "
+         "recording is accepted iff some sequence of cursor actions explains it with every invariant holding.",
+    note="Module files only (the Expr / StatementList entry points have no EOF terminal by construction); the TLC-validated subset of traces is "
+         "stride-thinned and limited to <= 40 terminals; a trace rejected while the tree laws hold is binding drift (diagnostic).",
+    technique="TLA+ specs ParserCursor (TLC exhaustive design model) + LexModel (TLC-enumerated input space replayed on the real lexer/parser) + ParserCursorTrace (TLC acceptor of real parses)",
+    design_ref="3.7, 5/C10", engine="tlc+cvh")
+CHECKS["C09"] = dict(
+    level="model_checking",
+    text="The input space of C10 (all strings / token soups enumerated by TLC from LexModel, corpus mutants, nesting probes at depth 200) is pushed "
+         "through lexing, parsing, get_formatted_file, parser-diagnostic formatting and - on every mutant, the nesting probes, small corpus files and "
+         "a stride of the enumerated inputs - semantic + lowering diagnostics with the corelib and the Starknet plugin suite, under catch_unwind, an "
+         "8 MiB stack, a watchdog (hangs confirmed alone at 10x budget) and process supervision; every diagnostic span must lie inside its file; the "
+         "cursor traces must end in Eof with DiagInside holding (ParserCursorTrace).",
+    note="Crash detection is the harness's, not the model's (the model contributes the bounded-exhaustive input space and the cursor protocol), so "
+         "the crash-freedom half is exploration-level assurance; full diagnostics run on a subset; one known finding class (salsa query cycles).",
+    technique="TLA+ LexModel input enumeration by TLC replayed into lexer / parser / formatter / diagnostics under crash supervision; ParserCursorTrace acceptance",
+    design_ref="3.7, 5/C09", engine="tlc+cvh")
 
 NOT_YET = "check not built yet in this session (see DESIGN.md section 9 build order); no claim is made"
 
@@ -258,7 +284,7 @@ def main():
     print("MANIFEST.json written:", len(checks), "checks,", len(na), "not_applicable")
 
 
-NA = {}
+NA = {"C11": "the check is built (specs/FormatStream, check/c11.py) and finds genuine formatter defects on the unchanged tree; it is being triaged (fixes / known findings) and will be registered once it exits 0"}
 HOOK_COMMITS = []
 
 if __name__ == "__main__":
